@@ -782,6 +782,14 @@ theorem mem_mapM_get {w : World} (hw : w.Good) {names : List String} {maps : Lis
   obtain ⟨n, _, hn⟩ := mem_of_mapM_some _ _ _ h m hm
   exact hw.get hn
 
+theorem withSpec_dtypeOut (r : OpRow) (h : parseDTCode r.dtypeOut ≠ some .bool) :
+    parseDTCode r.withSpec.dtypeOut ≠ some .bool := by
+  unfold OpRow.withSpec
+  split
+  · rename_i u un io ff fo _
+    cases fo <;> simp <;> decide
+  · exact h
+
 theorem Good.opMop {w : World} (hw : w.Good) (a : Args) : (HS.opMop w a).1.Good := by
   unfold HS.opMop
   op_split
@@ -797,7 +805,7 @@ theorem Good.opMop {w : World} (hw : w.Good) (a : Args) : (HS.opMop w a).1.Good 
     · have hmem := List.mem_of_find?_eq_some hrow
       have := List.all_eq_true.1 opsTable_dtypeOut row hmem
       simpa using this
-  exact hw.bind _ (Ok.apiMultiOp (mem_mapM_get hw hmaps) hd hv)
+  exact hw.bind _ (Ok.apiMultiOp (mem_mapM_get hw hmaps) (withSpec_dtypeOut row hd) hv)
 
 theorem Good.opDeg {w : World} (hw : w.Good) (a : Args) : (HS.opDeg w a).1.Good := by
   unfold HS.opDeg
